@@ -360,7 +360,7 @@ class Run:
         self.cov = {"evaluations": 0, "distinct_nontrivial": 0, "traces_validated_against_impl": 0,
                     "disagreements_checked": 0, "samples": [], "histogram": {}}
         self._distinct = set()
-        self.known = [k for k in load_known()["findings"] if k["property"] == prop]
+        self.known = [k for k in load_known()["findings"] if k["property"] == prop or prop in k.get("also_properties", [])]
         self.notes = []
 
     # -- counting ------------------------------------------------------------------------
